@@ -20,7 +20,9 @@ from bundlelib import UNIT
 from run import diff_stream
 
 GEN = ["builder", "ladders", "opcodes"]
-RULE = ("synthetic bundles: 15 condgen scenarios x {puzzle `1` with the conditions as solution, puzzle `(q . conditions)`} x "
+RULE = ("synthetic bundles: 15 condgen scenarios x {puzzle `1` with the conditions as solution, puzzle `(q . conditions)`, puzzle "
+        "`(r (c EXPR (q . conditions)))` with EXPR one of 11 dialect-gated expressions (unknown operators, modpow, keccak256, "
+        "sha256tree, secp, non-canonical integers, invalid G1 point) under consensus-mode / MEMPOOL_MODE / mixed CLVM flag sets} x "
         "random subsets of the condition flags + MEMPOOL_MODE + INTERNED_GENERATOR + SIMPLE_GENERATOR, amounts from the "
         "length-ladder thresholds +-1, real aggregate signatures (and tampered ones) when signatures are validated, cost limits "
         "exactly at / one below the mempool and block costs; single-point mutations (wrong declared hash, unparsable reveal/"
@@ -124,6 +126,8 @@ def run(ctx):
         st["error_kinds"] = dict(Counter(i.split(" # ")[0] for i in impl if i.startswith("ERR")).most_common(40))
         st["scenarios"] = dict(Counter(c[1]["scenario"] + "/" + c[1]["form"] for c in cs))
         st["mutations"] = dict(Counter(c[1]["mut"] for c in cs))
+        st["dialect_gated"] = dict(Counter("%s/%s/%s" % (c[1].get("dialect", "-"), t[1], "OK" if o.startswith("OK") else "ERR")
+                                           for c, o in zip(cs, impl) for t in c[1]["tags"] if t[0] == "DIALECT"))
         st["line_bytes_max"] = max((len(l) for l in lines), default=0)
         meta = {c[0]: c for c in cs}
 
@@ -133,7 +137,8 @@ def run(ctx):
             v = out.split(" ")[0] if out.startswith("OK") else out.split(" # ")[0][:40]
             if name == "bundle.gen":
                 v = "len"
-            return (b["scenario"], b["form"], bool(fl & B.F_INTERNED), bool(fl & B.F_SIMPLE), bool(fl & 0x800000),
+            return (b["scenario"], b["form"], b.get("dialect", "-"), tuple(sorted(t[1] for t in b["tags"] if t[0] == "DIALECT"))[:3],
+                    bool(fl & B.F_INTERNED), bool(fl & B.F_SIMPLE), bool(fl & 0x800000),
                     bool(fl & B.F_DONT_VALIDATE), b["mut"], b.get("limit", False), m, v)
         if ctx["have_model"]:
             model = C.run_lines(C.VRUN(UNIT), lines, timeout=1500)
